@@ -98,12 +98,15 @@ def hist_job(e, p):
     tabs = A.family_tabs(n, p['fam'])
     if p.get('hash_perm'): e.hooks['hash_perm'] = True
     def case(m):
-        return {'n': n, 'tabs': tables_from_model(m, [[zb(b) for b in t] for t in tabs]), 'history': hist, 'final': final}
+        c = {'n': n, 'tabs': tables_from_model(m, [[zb(b) for b in t] for t in tabs]), 'history': hist, 'final': final}
+        if p.get('novars'): c['novars'] = True
+        return c
     def on_panic(e_, msg):
         m = sat_model(e_, True)
         if m is not None: report(e_, 'panic', what='call history panics: %s' % msg[:200], case=case(m))
     e.hooks['on_panic'] = on_panic
-    adf, ra, bdd = A.make_adf(e, tabs, n)
+    # novars: bridged-shaped store (only the diagrams' nodes, as Adf::from_biodivine_vector leaves it; variable nodes appear lazily)
+    adf, ra, bdd = A.make_adf(e, tabs, n, create_vars=not p.get('novars'))
     first = {}
     for c in hist:
         r = do_call(e, c, adf, ra, bdd, n)
@@ -129,7 +132,7 @@ def hist_job(e, p):
         m = sat_model(e, True); report(e, 'memo-corrupt', what=pr, case=case(m), probe=probe)
     # the same query on a freshly built object
     if p.get('hash_perm'): e.hooks['hash_perm'] = False
-    adf2, ra2, bdd2 = A.make_adf(e, tabs, n)
+    adf2, ra2, bdd2 = A.make_adf(e, tabs, n, create_vars=not p.get('novars'))
     fresh = do_call(e, final, adf2, ra2, bdd2, n)
     if canary: fresh = list(fresh) + ['canary']
     if final in ('grounded', 'complete', 'stable', 'stable_with_prefilter', 'heu_a', 'heu_b') or final.startswith(('nogood', 'twoval')):
@@ -179,7 +182,7 @@ def replay(ctx, v):
     return 'not-reproduced', {'native_output': out}
 
 def key(v):
-    c = v['case']; return '%s:%s' % (v['kind'], json.dumps([c['n'], c['tabs'], c['history'], c['final']]))
+    c = v['case']; return '%s:%s' % (v['kind'], json.dumps([c['n'], c['tabs'], c['history'], c['final']] + (['novars'] if c.get('novars') else [])))
 
 
 def validate(ctx, tier, seed):
@@ -189,10 +192,11 @@ def validate(ctx, tier, seed):
     for i in range(10 if tier == 'quick' else 40):
         n = rng.choice([2, 3, 3])
         case = {'n': n, 'tabs': A.rand_tabs(rng, n), 'history': [rng.choice(CALLS) for _ in range(rng.randint(1, 3))], 'final': rng.choice(FINALS)}
+        if i % 3 == 2: case['novars'] = True
         out = nat.call(native_cmd(case), timeout=30)
         eng.reset_path([]); eng.path_violations = []
         try:
-            adf, ra, bdd = A.make_adf(eng, [[bool(b) for b in t] for t in case['tabs']], n)
+            adf, ra, bdd = A.make_adf(eng, [[bool(b) for b in t] for t in case['tabs']], n, create_vars=not case.get('novars'))
             for c in case['history']: do_call(eng, c, adf, ra, bdd, n)
             mine = do_call(eng, case['final'], adf, ra, bdd, n)
             nodes = [[str(nd.f[0].f[0]), nd.f[1].f[0], nd.f[2].f[0]] for nd in bdd_nodes(eng, bdd)]
@@ -219,6 +223,9 @@ def spec(ctx, tier, seed):
     for i, fam in enumerate(fams):
         h, f = hists[i % len(hists)]
         jobs.append(Job('n3-%d-%s=>%s' % (i, '+'.join(h), f), mod, 'hist_job', {'n': 3, 'fam': fam, 'history': h, 'final': f}, stop_after_violations=40))
+    # bridged-shaped stores: no bare variable nodes up front
+    for i, (h, f) in enumerate(hists[:3] + hists[-4:] if tier == 'quick' else hists[::2]):
+        jobs.append(Job('n2-bridged-%d-%s=>%s' % (i, '+'.join(h), f), mod, 'hist_job', {'n': 2, 'fam': ['sym', 'sym'], 'history': h, 'final': f, 'novars': True}, stop_after_violations=40))
     # determinism: hash containers iterate in every possible order during the history
     jobs.append(Job('n2-hashorder-heu_a+facet_count=>stable', mod, 'hist_job', {'n': 2, 'fam': ['sym', [0, 1, 1, 0]], 'history': ['facet_count', 'heu_a'], 'final': 'stable', 'hash_perm': True},
                     stop_after_violations=40))
@@ -228,4 +235,4 @@ def spec(ctx, tier, seed):
             'bounds': '%d call histories of length 1-%d drawn from VERIF_SEED over {%s} followed by a final query from {%s}, each on all 256 two-statement ADFs; 3-statement families with one symbolic statement; '
                       'one job where every hash-container iteration order is explored (symbolic permutation). After each history: answer vs fresh object, acceptance handles vs submitted tables, '
                       'audit of every entry of ite_cache / restrict_cache / var_deps / count_cache / unique table.' % (len(hists), 3 if tier == 'quick' else 5, ', '.join(CALLS), ', '.join(FINALS)),
-            'outside': 'histories longer than stated; Rand; biodivine back-end objects'}
+            'outside': 'histories longer than stated; Rand; objects of the biodivine-based Adf type (bridged-shaped stores of the naive type are included)'}
